@@ -47,7 +47,7 @@ def specs(ctx, n):
     names = gen.FAST if ctx.quick else gen.ALL
     out = []
     for i in range(n):
-        name = names[i % len(names)]
+        name = gen.rotate(names, i, ctx.quick)
         sp = dunit.general_spec(rng, name, max_calls=4, memory=None, verbosity=False, metrics=0, n_max=12)
         r = rng.random()
         if name in gen.POPULATION and r < 0.5:
